@@ -129,16 +129,33 @@ Theorem C09_probe_conditions : forall ch label try err c ch' obs pl pa,
 Proof. exact probe_sent_conditions. Qed.
 Print Assumptions C09_probe_conditions.
 
-(* "failed servers are re-tried by probes after the retry delay" does NOT hold in the pinned
-   code: end_query() clears probe_pending only when it is given the server, and a probe that
-   fails ends through ares_requeue_query() -> end_query(channel, NULL, ...).  After one failed
-   probe the server is never probed again although its retry time has passed, nothing is in
-   flight, and every draw says "probe". *)
-Theorem C09_probe_liveness_refuted :
-  exists ch obs, run ch0_refute history_refute = Ok (ch, obs) /\
-    probe_due ch (ch_servers ch) = Ok true /\
-    ch_chance ch = 1 /\
-    (exists su, choose_server (ch_rotate ch) 0 (ch_servers ch) = Some su /\ sv_fail su = 0) /\
-    forall c, exists ch' a, step ch (EvSend c) = Ok (ch', [OTx 3 a false]).
-Proof. exact probe_liveness_refuted. Qed.
-Print Assumptions C09_probe_liveness_refuted.
+(* ares_send_query's choice is total: with at least one configured server some server is
+   chosen, for every value of the random byte (so an attempt that is due is made) *)
+Theorem C09_pick_total : forall rotate c l, l <> [] -> exists s, choose_server rotate c l = Some s.
+Proof. exact choose_server_total. Qed.
+Print Assumptions C09_pick_total.
+
+(* trace level: an attempt that is due is actually made.  For all histories the second monitor
+   accepts the stream: a user query ends with a failure status (other than cancellation) only
+   when the number of transmissions made for it has reached the budget configured servers x
+   tries - in particular never with ARES_ENOSERVER, and never without a transmission, while
+   servers are configured.  [inv] also carries the facts used for liveness. *)
+Theorem C09_attempts_sent : forall addrs rotate tries chance delay now evs ch obs,
+  run (init_chan addrs rotate tries chance delay now) evs = Ok (ch, obs) ->
+  exists bm, bmon_run (bmon_init addrs tries) obs = Some bm /\ inv bm ch.
+Proof. exact budget_accepts. Qed.
+Print Assumptions C09_attempts_sent.
+
+(* "failed servers are re-tried by probe copies after the retry delay" (with
+   fixes/C09-probe-pending-clear.patch): in every reachable state, when a user's first attempt
+   goes to a server without failures, the draw says "probe" and some failed server is past its
+   retry time with no probe in flight to it, a probe copy is transmitted (to another server) *)
+Theorem C09_probe_liveness : forall addrs rotate tries chance delay now evs ch obs0 c ch' obs su,
+  run (init_chan addrs rotate tries chance delay now) evs = Ok (ch, obs0) ->
+  choose_server (ch_rotate ch) (c_rot c) (ch_servers ch) = Some su -> sv_fail su = 0 ->
+  ch_chance ch <> 0 -> c_probe c mod ch_chance ch = 0 ->
+  probe_due ch (ch_servers ch) = Ok true ->
+  step ch (EvSend c) = Ok (ch', obs) ->
+  exists pl pa, In (OTx pl pa true) obs /\ pa <> sv_addr su.
+Proof. exact probe_liveness_reachable. Qed.
+Print Assumptions C09_probe_liveness.
